@@ -650,6 +650,37 @@ func rc8bImplicitDep(w *World, info *types.Info, body *ast.BlockStmt, setBlocked
 				return true
 			})
 		}
+		// the path must really be stored into the published list: X[…] = path / X = append(…, path),
+		// with X the published variable or assigned to it in this block
+		storesIntoArg := false
+		holders := map[string]bool{}
+		for _, st := range blk.List {
+			as, ok := st.(*ast.AssignStmt)
+			if !ok {
+				continue
+			}
+			for i, l := range as.Lhs {
+				if i >= len(as.Rhs) {
+					continue
+				}
+				r := ast.Unparen(as.Rhs[i])
+				if ix, ok := ast.Unparen(l).(*ast.IndexExpr); ok && render(r) == implicitPath {
+					holders[render(ix.X)] = true
+				}
+				if c, ok := r.(*ast.CallExpr); ok && isBuiltinCall(info, c, "append") {
+					for _, a := range c.Args[1:] {
+						if render(a) == implicitPath {
+							holders[render(l)] = true
+						}
+					}
+				}
+				if holders[render(r)] {
+					holders[render(l)] = true
+				}
+			}
+		}
+		storesIntoArg = holders[publishArg]
+		assignsArg = assignsArg && storesIntoArg
 		if setsFlag {
 			found = true
 			if assignsArg && mentionsPath {
